@@ -457,6 +457,28 @@ def _old_apply_for_rewrites(body, for_rewrites, counts):
     return body
 
 
+
+def inline_assoc_consts(body, block, counts):
+    """R17: `Self::NAME`, where `const NAME: T = EXPR;` is an associated constant of the same impl
+    block, is replaced by `(EXPR)` (a constant expression is its value; Verus has no associated
+    constants)."""
+    for name in sorted(set(re.findall(r"\bSelf::([A-Z][A-Z0-9_]*)\b", body))):
+        m = re.search(r"\bconst\s+" + name + r"\s*:\s*[^=;]+=", block)
+        if not m:
+            continue
+        i = m.end()
+        j = i
+        while j < len(block) and block[j] != ";":
+            if block[j] in "({[":
+                j = match_close(block, j)
+            j += 1
+        expr = block[i:j].strip()
+        if re.search(r"\bSelf::[A-Z][A-Z0-9_]*\b", expr):
+            continue  # a constant defined through another one: left alone (Verus will refuse it)
+        body, k = re.subn(r"\bSelf::" + name + r"\b", "(" + expr + ")", body)
+        counts["R17"] = counts.get("R17", 0) + k
+    return body
+
 def bind_tail_expr(body, fnq):
     """`...; TAIL` -> `...; let vx_r = TAIL; vx_r` so that proof hints can follow the computation
     of the result (annotation plumbing only: evaluation order and value are unchanged)."""
@@ -680,7 +702,7 @@ class Emitter:
         ft = find_fn(block, f.name, what)
         fnq = f"{implname}::{f.name}" if implname else f.name
         counts = {}
-        body0 = ft.body
+        body0 = inline_assoc_consts(ft.body, block, counts)
         for pat, repl, _ in self.unit.pre_rewrites:
             body0 = re.sub(pat, repl, body0, flags=re.S)
         body0 = apply_for_rewrites(body0, self.unit.for_rewrites, counts)
